@@ -142,11 +142,15 @@ Definition states (cr : crules) : list (N * bytes) := bfs cr 8 [(0, [])].
 Definition is_suffix (a w : bytes) : bool :=
   (length a <=? length w)%nat && bytes_eqb a (skipn (length w - length a) w).
 
-(* own matches of a state: its list minus the list inherited from the longest proper suffix state *)
-Definition longest_suffix_state (sts : list (N * bytes)) (w : bytes) (proper : bool) : N * bytes :=
-  fold_left (fun best qp =>
-               if is_suffix (snd qp) w && (negb proper || (length (snd qp) <? length w)%nat)
-                  && (length (snd best) <? length (snd qp))%nat then qp else best) sts (0, []).
+Definition state_of (sts : list (N * bytes)) (w : bytes) : option N :=
+  option_map fst (find (fun qp => bytes_eqb (snd qp) w) sts).
+
+(* longest suffix of w that is the path of a state *)
+Fixpoint lsuf (sts : list (N * bytes)) (w : bytes) : bytes :=
+  match state_of sts w with
+  | Some _ => w
+  | None => match w with [] => [] | _ :: r => lsuf sts r end
+  end.
 
 Fixpoint strip_suffix_list (l tail : list N) : option (list N) :=
   if (length l =? length tail)%nat then (if forallb (fun xy => fst xy =? snd xy) (combine l tail) then Some [] else None)
@@ -155,10 +159,14 @@ Fixpoint strip_suffix_list (l tail : list N) : option (list N) :=
        | x :: r => match strip_suffix_list r tail with Some p => Some (x :: p) | None => None end
        end.
 
+(* own matches of a state: its list minus the list inherited from the longest proper suffix state *)
 Definition own_matches (cr : crules) (sts : list (N * bytes)) (qp : N * bytes) : option (list N) :=
   match snd qp with
   | [] => Some (match_list cr (fst qp))
-  | _ => strip_suffix_list (match_list cr (fst qp)) (match_list cr (fst (longest_suffix_state sts (snd qp) true)))
+  | _ :: r => match state_of sts (lsuf sts r) with
+              | Some f => strip_suffix_list (match_list cr (fst qp)) (match_list cr f)
+              | None => None
+              end
   end.
 
 (* all atoms of the automaton: (string index, atom bytes, backtrack) *)
